@@ -534,6 +534,18 @@ def cli_classifier(inner, prefixes):
     return classify
 
 
+def mecab_example_classify(line, impl, mobs, extra):
+    """`conn <id>.mecab<k>` lines of the cli stream: the cost table of the dictionary written by the real
+    examples/mecab_smalldic program against the raw-connector model's table of the library's generated files."""
+    if ".mecab" not in line.split(" ", 2)[1]:
+        return {"tags": [], "nontrivial": False, "ignore": True}
+    info = {"tags": ["example=mecab_smalldic", "impl=" + impl.split()[0]], "nontrivial": impl.startswith("ok")}
+    if impl != mobs:
+        info["prop_fail"] = "mecab-example-dictionary-costs-differ"
+        info["why"] = "the dictionary compiled by examples/mecab_smalldic has connection costs other than those defined by the generated bigram files"
+    return info
+
+
 def with_cli(streams, inner, prefixes, nq, nt):
     def f(tier, seed):
         n = nq if tier == "quick" else nt
@@ -666,7 +678,7 @@ PROPS = {
                      "Vibrato.Props.C20.gap_rejected", "Vibrato.Props.C20.gap_rejected_fixed",
                      "Vibrato.Props.C20.malformed_rejected", "Vibrato.Props.C20.zero_not_bos_rejected",
                      "Vibrato.Props.C20.f12_largest_id_dropped", "Vibrato.Props.C20.f12_fixed_rejects"],
-        "streams": extract_streams(("mecab",), 1500, 30000),
+        "streams": with_cli(extract_streams(("mecab",), 1500, 30000), {"conn": mecab_example_classify}, ("mecab-",), 20, 600),
         "rule": "random MeCab model descriptions: feature.def with optional %L?/%R? references, id tables (gaps, id 0 missing or not "
                 "BOS/EOS, bad separators, invalid UTF-8), model.def with positive/negative/zero/unmatched weights and extreme "
                 "cost factors; the three generated files compared byte for byte with the model",
